@@ -69,6 +69,41 @@ pub fn gen_tree(rng: &mut Rng, hostile_text: bool) -> CmdSpec {
         }
     }
     same_as_parent(rng, &mut spec);
+    // two trailing positionals in a leaf command (`items... ; modes...`, `items... -- mode`): the
+    // shapes in which a generator may or may not write the second one; it carries possible values
+    if rng.chance(1, 6) {
+        fn leaf<'a>(rng: &mut Rng, c: &'a mut CmdSpec) -> &'a mut CmdSpec {
+            if c.subs.is_empty() {
+                return c;
+            }
+            let i = rng.below(c.subs.len());
+            leaf(rng, &mut c.subs[i])
+        }
+        let l = leaf(rng, &mut spec);
+        if !l.has(Setting::Hide) {
+            l.args.retain(|a| !a.is_positional());
+            let terminated = rng.coin();
+            let second_last = !terminated || rng.coin();
+            let n = l.args.len();
+            let mut first = ArgSpec { id: format!("tp{}items", n), action: Some(Act::Append), num_args: Some((1, usize::MAX)), value_names: vec![format!("TP{}ITEMS", n)], ..Default::default() };
+            if terminated {
+                first.terminator = Some(";".into());
+            }
+            let mut second = ArgSpec { id: format!("tp{}mode", n), action: Some(Act::Append), value_names: vec![format!("TP{}MODE", n)], ..Default::default() };
+            second.last = second_last;
+            if !second_last || rng.coin() {
+                second.num_args = Some((1, usize::MAX));
+            } else {
+                second.action = Some(Act::Set);
+            }
+            second.vp = Some(Vp::Possible(vec![
+                Pv { name: format!("tp{}pvq0", n), aliases: vec![], hide: false, help: None },
+                Pv { name: format!("tp{}pvq1", n), aliases: vec![], hide: false, help: None },
+            ]));
+            l.args.push(first);
+            l.args.push(second);
+        }
+    }
     spec
 }
 
@@ -152,7 +187,13 @@ fn expectations(c: &CmdSpec, depth: usize, inherited_hidden: bool, out: &mut Vec
         if a.takes_values() && !a.hide_possible_values {
             if let Some(Vp::Possible(pvs)) = &a.vp {
                 for p in pvs.iter().filter(|p| !p.hide) {
-                    let after_variadic = a.is_positional() && c.args.iter().take_while(|x| x.id != a.id).any(|x| x.is_positional() && x.eff_num_args().1 > 1);
+                    // exactly zsh's documented omission (F28): a `last` or multi-valued positional behind a
+                    // catch-all, i.e. behind a multi-valued positional without a value terminator in a
+                    // command without subcommands; behind a terminated one it has to be there
+                    let after_variadic = a.is_positional()
+                        && (a.last || a.eff_num_args().1 > 1)
+                        && c.subs.is_empty()
+                        && c.args.iter().take_while(|x| x.id != a.id).any(|x| x.is_positional() && x.eff_num_args().1 > 1 && x.terminator.is_none());
                     let class = if after_variadic {
                         "possible-value-of-positional-after-variadic"
                     } else if a.is_positional() {
@@ -282,6 +323,19 @@ pub fn case(seed: u64, st: &mut Stats) {
     };
     st.count("gate.accepted");
     st.nontrivial(hash_str(&format!("{:?}", spec)));
+    {
+        fn two_trailing(c: &CmdSpec) -> Option<bool> {
+            if let Some(a) = c.args.iter().find(|a| a.id.starts_with("tp") && a.id.ends_with("items")) {
+                return Some(a.terminator.is_some());
+            }
+            c.subs.iter().find_map(two_trailing)
+        }
+        match two_trailing(&spec) {
+            Some(true) => st.count("shape.two-trailing-positionals.first-terminated"),
+            Some(false) => st.count("shape.two-trailing-positionals.first-catch-all"),
+            None => {}
+        }
+    }
     let dunder = has_double_underscore(&spec);
     let ctx = || format!("spec={}", brief(&spec));
     let mut exps = vec![];
